@@ -50,7 +50,7 @@ Definition apropos_ex (p : str) : option pmeta :=
 
 Theorem edge_of_enumerated_subtree_before_fix_refuted :
   exists apropos keys cur,
-    scan_deps apropos keys 8 cur = Some [p_on] /\ scan_deps_old apropos keys 8 cur = Some [].
+    scan_deps apropos keys 8 cur cur = Some [p_on] /\ scan_deps_old apropos keys 8 cur = Some [].
 Proof. exists apropos_ex, [p_on; p_v0x], p_v0x. split; vm_compute; reflexivity. Qed.
 
 (* ---- second witness: before fix d5aff4d the empty rest behind the trailing
@@ -116,7 +116,7 @@ Definition apropos_ex2 (p : str) : option pmeta :=
 Theorem trailing_comma_entry_before_fix_refuted :
   entries_old [113; 44] = [[113; 44]; []] /\ entries [113; 44] = [[113; 44]] /\
   exists apropos cur,
-    scan_deps apropos [] 40 cur = Some [] /\ scan_deps_old2 apropos [] 40 cur = None.
+    scan_deps apropos [] 40 cur cur = Some [] /\ scan_deps_old2 apropos [] 40 cur = None.
 Proof.
   split; [reflexivity|]. split; [reflexivity|].
   exists apropos_ex2, p_dp. split; vm_compute; reflexivity.
